@@ -205,7 +205,7 @@ class Evaluator:
         if 1 <= l <= self.body.arg_count:
             if l in self.params:
                 return self.params[l]
-            return ("p", l, self.body.debug_names.get(l, "_%d" % l))
+            return ("p", l, self.body.debug_names.get(l, "_%d" % l), self.body.name)
         return ("u", l)
 
     def read_canon(self, st, root, cproj):
@@ -231,7 +231,7 @@ class Evaluator:
 
     def write_place(self, st, pl, val, line=None, record=True):
         root, cproj = self.canon(st, pl["l"], pl.get("p", ()))
-        if cproj and record:
+        if (cproj or pl.get("p")) and record:
             lv = self.read_canon(st, root, cproj)
             st.effects.append(("write", lv, val, line, root, cproj))
         for key in [k for k in st.mem if k[0] == root and len(k[1]) > len(cproj) and k[1][:len(cproj)] == cproj]:
@@ -366,6 +366,8 @@ class Evaluator:
                 budget = 0 if (ent and ent[1]) else self.unroll
                 n = st.backs.get(b, 0)
                 if n >= budget:
+                    if not (ent and ent[1]):
+                        self._emit(st, "loopcut", None)
                     continue
                 st.backs[b] = n + 1
             st.blocks.append(b)
@@ -431,6 +433,9 @@ class Evaluator:
                             break
                 if not skip:
                     cand.append((tb, atom))
+            if not cand and nxt:
+                self._emit(st, "loopcut", None)
+                continue
             for i, (tb, atom) in enumerate(cand):
                 s2 = st if i == len(cand) - 1 else st.fork()
                 if atom is not None:
@@ -673,7 +678,11 @@ def strip_after(e):
         return strip_after(e[3])
     if k == "call":
         return (k, e[1], tuple(strip_after(a) for a in e[2])) + tuple(e[3:])
-    if k in ("f", "vf", "dc", "discr", "len", "try", "unwrap", "residual", "poll", "await", "sub", "idx", "repeat"):
+    if k == "f":
+        return field_of(strip_after(e[1]), e[2])
+    if k == "vf":
+        return vfield_of(strip_after(e[1]), e[2], e[3])
+    if k in ("dc", "discr", "len", "try", "unwrap", "residual", "poll", "await", "sub", "idx", "repeat"):
         return (k, strip_after(e[1])) + tuple(e[2:])
     if k in ("bin", "chk", "ovf"):
         return (k, e[1], strip_after(e[2]), strip_after(e[3])) + tuple(e[4:])
